@@ -300,6 +300,29 @@ def scenario(case):
             if not str(e).strip():
                 out["fails"].append(("undescriptive_error:%s:%s" % (type(e).__name__, target), "ambiguous default refused without a message"))
         return out
+    explicit_default = False
+    if case.get("set_default") and case["how"] == "default" and len(case["pdks"]) > 1:
+        # several PDKs registered, this one declared the default; then (optionally) a compile aimed at ANOTHER PDK fails -
+        # the un-targeted compile that follows must still go to the declared default
+        try:
+            h.pdk.set_default(regmod if case["set_default"] == "module" else REGNAME[target])
+            explicit_default = True
+        except Exception as e:
+            out["fails"].append(("set_default_raises:%s" % type(e).__name__, str(e)[-200:]))
+            return out
+        if case.get("failed_other_first"):
+            other = [p for p in case["pdks"] if p != target][0]
+            bad = h.Module(name="BadForOther")
+            bad.d, bad.g, bad.s, bad.b = h.Signals(4)
+            bad.add(h.Mos(model="zz_no_such_model_anywhere")(d=bad.d, g=bad.g, s=bad.s, b=bad.b), name="x")
+            try:
+                h.pdk.compile(bad, pdk=REGNAME[other])
+                out["notes"].append("bad_request_to_other_pdk_did_not_raise")
+            except BaseException:  # noqa
+                pass
+            if h.pdk.default() is not regmod:
+                out["fails"].append(("default_changed_by_failed_compile", "after a failed compile aimed at %s, hdl21.pdk.default() is %r instead of the declared default" % (other, h.pdk.default())))
+                return out
     try:
         do_compile()
     except StopIteration as e:
@@ -307,7 +330,7 @@ def scenario(case):
         return out
     except Exception as e:
         msg = str(e).strip()
-        if case["how"] == "default" and len(case["pdks"]) > 1:
+        if case["how"] == "default" and len(case["pdks"]) > 1 and not explicit_default:
             out["notes"].append("default_with_several_pdks_raises")
             return out
         if expect_error:
@@ -328,7 +351,7 @@ def scenario(case):
     if expect_error:
         out["fails"].append(("unsatisfiable_request_accepted:%s" % target, "no documented row satisfies one of %s, yet compile returned" % json.dumps(case["reqs"])))
         return out
-    if case["how"] == "default" and len(case["pdks"]) > 1:
+    if case["how"] == "default" and len(case["pdks"]) > 1 and not explicit_default:
         out["fails"].append(("default_ambiguous_accepted", "several PDKs registered, none default, yet hdl21.pdk.compile() compiled"))
     after = snapshot(top)
     # hierarchy, names, conns
@@ -625,6 +648,8 @@ def record(res, case, v):
     feats = ["pdk_" + case["target"], "how_" + case["how"], "depth%d" % case["shape"]["depth"]] + ["prim_" + r["prim"] for r in case["reqs"]]
     if case.get("as_list"):
         feats.append("compile_source_is_a_list")
+    if case.get("set_default") and case["how"] == "default" and len(case["pdks"]) > 1:
+        feats.append("explicit_default_among_several_pdks" + ("_after_failed_compile_elsewhere" if case.get("failed_other_first") else ""))
     if case.get("twice"):
         feats.append("compile_twice")
     if len(case["pdks"]) > 1:
@@ -728,6 +753,7 @@ def shard(idx, n, tier):
         how = draw(st.sampled_from(["direct", "direct", "name", "module", "default"]))
         return {"pdks": [target] + others, "target": target, "how": how, "twice": draw(st.booleans()), "reqs": reqs, "pre_walk": draw(st.booleans()),
                 "as_list": draw(st.sampled_from([0, 0, 1, 2])),
+                "set_default": draw(st.sampled_from([None, "name", "module"])), "failed_other_first": draw(st.booleans()),
                 "shape": {"depth": depth, "levels": levels, "tie": draw(st.booleans())}}
 
     @hypothesis.seed(env.subseed(PID, idx))
